@@ -9,6 +9,7 @@ Definition c10_valid (c : c10_case) : Prop :=
   | KCmp _ r1 _ r2 _ => r1 < two64 /\ r2 < two64
   | KEncl _ _ r _ => r < two64
   | KRange _ _ _ r _ => r < two64
+  | KBord _ _ _ _ r _ => r < two64
   | _ => True
   end.
 
@@ -30,9 +31,34 @@ Proof. unfold in_bounds. rewrite andb_true_iff, bleb_spec, bltb_spec. reflexivit
 Lemma bool_eq_iff (a b : bool) : (a = true <-> b = true) -> a = b.
 Proof. destruct a, b; intros [H1 H2]; try reflexivity; [symmetry; apply H1|apply H2]; reflexivity. Qed.
 
+Lemma with_slash_alpha p : alpha p -> alpha (with_slash p).
+Proof.
+  intros A. unfold with_slash. destruct (ends_slash p); [exact A|].
+  apply Forall_app. split; [exact A|]. constructor; [unfold slash; lia|constructor].
+Qed.
+
+Lemma prefix_end_opt_app_some p x : x < 255 -> exists e, prefix_end_opt (p ++ [x]) = Some e.
+Proof.
+  intros Hx. induction p as [|y p IH]; cbn [app prefix_end_opt].
+  - destruct (N.ltb_spec x 255); [eexists; reflexivity|lia].
+  - destruct IH as [e ->]. eexists; reflexivity.
+Qed.
+
+Lemma rev_cons_decomp (p : bytes) x t : rev p = x :: t -> p = rev t ++ [x].
+Proof. intros H. rewrite <- (rev_involutive p), H. reflexivity. Qed.
+
+Lemma with_slash_end p : exists e, prefix_end_opt (with_slash p) = Some e.
+Proof.
+  unfold with_slash, ends_slash. destruct (rev p) as [|x t] eqn:R.
+  - apply prefix_end_opt_app_some. unfold slash; lia.
+  - destruct (N.eqb_spec x slash) as [->|_].
+    + rewrite (rev_cons_decomp p slash t R). apply prefix_end_opt_app_some. unfold slash; lia.
+    + apply prefix_end_opt_app_some. unfold slash; lia.
+Qed.
+
 Lemma c10_oracle_sound c : c10_valid c -> c10_check c = true -> c10_oracle c = None.
 Proof.
-  destruct c as [k r out|ik out|k r out|k1 r1 k2 r2 z|p out|b out|r out|p k r inside|a b k r inside];
+  destruct c as [k r out|ik out|k r out|k1 r1 k2 r2 z|p out|b out|r out|p k r inside|a b k r inside|cfg lo hi k r inside];
     cbn [c10_valid c10_check c10_oracle]; intros V C; try reflexivity.
   - rewrite decode_encode in C by exact V. apply dec_eqb_eq in C. subst out.
     cbn [dec_eqb]. rewrite beqb_refl, N.eqb_refl. reflexivity.
@@ -61,4 +87,13 @@ Proof.
     + rewrite Bool.eqb_reflx. reflexivity.
     + apply bool_eq_iff. rewrite in_bounds_spec. rewrite andb_true_iff, bleb_spec, bltb_spec.
       symmetry. apply range_bounds; assumption.
+  - destruct (alphab cfg) eqn:Ac; [|reflexivity]. destruct (alphab k) eqn:Ak; [|reflexivity].
+    apply alphab_spec in Ac, Ak. cbn [andb].
+    apply andb_true_iff in C as [C C3]. apply andb_true_iff in C as [C1 C2].
+    apply beqb_eq in C1, C2. apply Bool.eqb_prop in C3. subst lo hi inside.
+    destruct (with_slash_end cfg) as [e E]. unfold prefix_end. rewrite E.
+    replace (has_prefix (with_slash cfg) k) with (in_bounds (encode (with_slash cfg) 0) (encode e 0) (encode k r)).
+    + rewrite Bool.eqb_reflx. reflexivity.
+    + apply bool_eq_iff. rewrite in_bounds_spec. symmetry.
+      apply prefix_bounds; [apply with_slash_alpha; exact Ac|exact Ak|exact V|exact E].
 Qed.
